@@ -41,7 +41,10 @@ let read_ops () =
     let t = next () in
     let o = match t with
       | "W" -> let n = nexti () in let bs = List.init n (fun _ -> z_of_int (nexti ())) in OWrite bs
-      | "S" -> OSeek (z_of_int (nexti ()))
+      | "S" -> OSeek (Z0, z_of_int (nexti ()))
+      | "SC" -> OSeek (z_of_int 1, z_of_int (nexti ()))
+      | "SE" -> OSeek (z_of_int 2, z_of_int (nexti ()))
+      | "T" -> OTell | "Q" -> OInq
       | "R" -> ORead (z_of_int (nexti ()))
       | "E" -> OEnd | "OR" -> OStartRead | "OW" -> OStartWrite | "C" -> OReopen | "Z" -> OSize | "X" -> ORaw
       | _ -> failwith ("op " ^ t) in
@@ -53,6 +56,7 @@ let show_res o r =
   | RNoDomain, _ -> "?"
   | RFail, _ -> "f"
   | RN n, OSize -> "z" ^ string_of_int (int_of_z n)
+  | RPair (a, b), _ -> "q" ^ string_of_int (int_of_z a) ^ "," ^ string_of_int (int_of_z b)
   | RN n, _ -> "n" ^ string_of_int (int_of_z n)
   | RBytes l, ORaw -> "x" ^ hex l
   | RBytes l, _ -> "b" ^ hex l
